@@ -20,7 +20,9 @@ EXPLANATION = (
     "record positions of which steps (all episodes in order, one episode, a single element; whole or sliced) it is gathered from - and "
     "each array returned for a protocol role (role = parameter of the transition-consuming function the result position is bound to) "
     "must be exactly its own record position of every step; a role's array that contains another role's column taken across episode "
-    "boundaries is a violation, per-episode reconstructions and other unread forms are undecided."
+    "boundaries is a violation, per-episode reconstructions and other unread forms are undecided. "
+    "R6 covers the write side of the replay buffers: the column storage allocated at the first insertion must not take its element type from the "
+    "first value stored (value -> dtype dataflow inside add_sample)."
 )
 TRUSTED = [
     "gymnasium protocol: env.step returns (next_obs, reward, terminated, truncated, info); env.reset returns (obs, info)",
@@ -46,6 +48,10 @@ RULES = {
                        "observation; role = the parameter of the transition-consuming function it is bound to) is gathered from that role's own "
                        "position of the per-step records, for every step of every episode in storage order; an array of one role built from the "
                        "column of another role across episode boundaries is a violation, forms that are not read are undecided",
+    "R6-storage-dtype": "the storage ReplayBuffer / SubtrajectoryReplayBuffer.add_sample allocates for a column at the first insertion (shaped after the "
+                        "first value) has the column's declared element type; a storage whose element type is the type of the first value stored, for every "
+                        "column alike, lets an integer-typed first reward truncate all later fractional rewards (violation); a type taken from the value "
+                        "under a condition on the column / value or computed from it is undecided",
 }
 
 # parameter / keyword names -> role.  Names of *API parameters* of the store callee, not of local variables.
@@ -1457,11 +1463,624 @@ def _read_step_projection(repo, qual, cfgs):
     cfgs[qual] = CFG(new)
 
 
+_COLUMN_STORES = ["rl_blox.blox.replay_buffer.ReplayBuffer", "rl_blox.blox.replay_buffer.SubtrajectoryReplayBuffer"]
+_SAME_ARRAY = {"np.asarray", "np.array", "np.asanyarray", "np.ascontiguousarray", "np.copy", "numpy.asarray", "numpy.array", "numpy.copy", "jnp.asarray", "jnp.array", "jnp.copy"}
+_ALLOCATORS = {"empty": 1, "zeros": 1, "ones": 1, "full": 2, "empty_like": 1, "zeros_like": 1, "ones_like": 1, "full_like": 2}      # position of `dtype`
+
+
+class _NotConcrete(Exception):
+    pass
+
+
+class _Opaque:
+    """a value the constructor evaluation does not know (an array, a type object, a parameter without default)"""
+
+    def __init__(self, what):
+        self.what = what
+
+    def __repr__(self):
+        return f"<{self.what}>"
+
+
+class _CtorEval:
+    """Exact evaluation of the plain-Python part of a constructor called with its default arguments: constants, displays, `is None` guards, loops over
+    concrete sequences (`zip`, `enumerate`, `range`), sets / lists / dicts filled by `add` / `append` / item assignment.  Every value it does not
+    know is opaque; a test on an opaque value, an unmodelled method of a tracked container, or a tracked container handed to a call (it may be
+    changed there: the container is forgotten) ends the evaluation of whatever depends on it (_NotConcrete)."""
+    BUILTIN_TYPES = {"float": float, "int": int, "bool": bool, "str": str, "complex": complex}
+    MODELLED = {"add", "append", "extend", "update", "keys", "values", "items", "copy", "get"}
+
+    def __init__(self, fn, extra_env=None):
+        self.attrs, self.escaped = {}, set()
+        a = fn.args
+        pos = a.posonlyargs + a.args
+        self.env = {p.arg: _Opaque(p.arg) for p in pos + a.kwonlyargs}
+        for p, d in list(zip(pos[len(pos) - len(a.defaults):], a.defaults)) + [(p, d) for p, d in zip(a.kwonlyargs, a.kw_defaults) if d is not None]:
+            try:
+                self.env[p.arg] = self.ev(d)
+            except _NotConcrete:
+                pass
+        self.self_name = pos[0].arg if pos else "self"
+        self.env.update(extra_env or {})
+
+    def run(self, stmts):
+        for s in stmts:
+            self.stmt(s)
+
+    def truth(self, e):
+        v = self.ev(e)
+        if isinstance(v, _Opaque) or id(v) in self.escaped:
+            raise _NotConcrete(ast.unparse(e))
+        return bool(v)
+
+    def bind(self, t, v):
+        if isinstance(t, ast.Name):
+            self.env[t.id] = v
+        elif isinstance(t, (ast.Tuple, ast.List)) and isinstance(v, (tuple, list)) and len(v) == len(t.elts) and not any(isinstance(x, ast.Starred) for x in t.elts):
+            for x, y in zip(t.elts, v):
+                self.bind(x, y)
+        elif isinstance(t, ast.Attribute) and isinstance(t.value, ast.Name) and t.value.id == self.self_name:
+            self.attrs[t.attr] = v
+        elif isinstance(t, ast.Subscript):
+            c, k = self.ev(t.value), self.ev(t.slice)
+            if isinstance(c, _Opaque):
+                return
+            if not isinstance(c, (dict, list)) or isinstance(k, _Opaque):
+                raise _NotConcrete(ast.unparse(t))
+            try:
+                c[k] = v
+            except Exception:
+                raise _NotConcrete(ast.unparse(t))
+        else:
+            raise _NotConcrete(ast.unparse(t))
+
+    def stmt(self, s):
+        if isinstance(s, ast.Assign):
+            v = self.ev(s.value)
+            for t in s.targets:
+                self.bind(t, v)
+        elif isinstance(s, ast.AnnAssign):
+            if s.value is not None:
+                self.bind(s.target, self.ev(s.value))
+        elif isinstance(s, ast.If):
+            self.run(s.body if self.truth(s.test) else s.orelse)
+        elif isinstance(s, ast.For) and not s.orelse:
+            it = self.ev(s.iter)
+            if isinstance(it, dict):
+                it = list(it)
+            if not isinstance(it, (list, tuple)) or id(it) in self.escaped:
+                raise _NotConcrete(ast.unparse(s.iter))
+            for x in list(it):
+                self.bind(s.target, x)
+                self.run(s.body)
+        elif isinstance(s, ast.Expr):
+            self.ev(s.value)
+        elif isinstance(s, (ast.Assert, ast.Pass)):
+            pass
+        else:
+            raise _NotConcrete(type(s).__name__)
+
+    def ev(self, e):
+        if isinstance(e, ast.Constant):
+            return e.value
+        if isinstance(e, ast.Name):
+            if e.id in self.env:
+                return self.env[e.id]
+            if e.id in self.BUILTIN_TYPES:
+                return self.BUILTIN_TYPES[e.id]
+            return _Opaque(e.id)
+        if isinstance(e, (ast.List, ast.Tuple, ast.Set)):
+            if any(isinstance(x, ast.Starred) for x in e.elts):
+                raise _NotConcrete(ast.unparse(e))
+            vals = [self.ev(x) for x in e.elts]
+            if isinstance(e, ast.Set):
+                if any(isinstance(v, _Opaque) for v in vals):
+                    raise _NotConcrete(ast.unparse(e))
+                return set(vals)
+            return vals if isinstance(e, ast.List) else tuple(vals)
+        if isinstance(e, ast.Dict):
+            if any(k is None for k in e.keys):
+                raise _NotConcrete(ast.unparse(e))
+            return {self.ev(k): self.ev(v) for k, v in zip(e.keys, e.values)}
+        if isinstance(e, ast.IfExp):
+            return self.ev(e.body) if self.truth(e.test) else self.ev(e.orelse)
+        if isinstance(e, ast.UnaryOp) and isinstance(e.op, ast.Not):
+            return not self.truth(e.operand)
+        if isinstance(e, ast.BoolOp):
+            v = None
+            for x in e.values:
+                v = self.ev(x)
+                if isinstance(v, _Opaque) or id(v) in self.escaped:
+                    raise _NotConcrete(ast.unparse(x))
+                if bool(v) != isinstance(e.op, ast.And):
+                    return v
+            return v
+        if isinstance(e, ast.Compare) and len(e.ops) == 1:
+            a, b, op = self.ev(e.left), self.ev(e.comparators[0]), e.ops[0]
+            if isinstance(op, (ast.Is, ast.IsNot)) and (a is None or b is None):
+                return (a is b) == isinstance(op, ast.Is)          # an opaque value (a parameter without default, an array) is compared with None by identity
+            if isinstance(a, _Opaque) or isinstance(b, _Opaque) or id(a) in self.escaped or id(b) in self.escaped:
+                raise _NotConcrete(ast.unparse(e))
+            if isinstance(op, (ast.Is, ast.IsNot)) and (isinstance(a, (type, bool)) or isinstance(b, (type, bool))):
+                return (a is b) == isinstance(op, ast.Is)
+            try:
+                if isinstance(op, (ast.In, ast.NotIn)):
+                    return (a in b) == isinstance(op, ast.In)
+                if isinstance(op, (ast.Eq, ast.NotEq)):
+                    return (a == b) == isinstance(op, ast.Eq)
+            except Exception:
+                pass
+            raise _NotConcrete(ast.unparse(e))
+        if isinstance(e, ast.Attribute):
+            if isinstance(e.value, ast.Name) and e.value.id == self.self_name:
+                if e.attr in self.attrs:
+                    return self.attrs[e.attr]
+                raise _NotConcrete(ast.unparse(e))
+            return _Opaque(ast.unparse(e)[:30])
+        if isinstance(e, ast.Subscript):
+            c, k = self.ev(e.value), self.ev(e.slice) if not isinstance(e.slice, ast.Slice) else _Opaque("slice")
+            if isinstance(c, (dict, list, tuple)) and not isinstance(k, _Opaque) and id(c) not in self.escaped:
+                try:
+                    return c[k]
+                except Exception:
+                    raise _NotConcrete(ast.unparse(e))
+            return _Opaque(ast.unparse(e)[:30])
+        if isinstance(e, ast.Call):
+            return self.call(e)
+        for x in ast.iter_child_nodes(e):
+            if isinstance(x, ast.expr):
+                self.ev(x)
+        return _Opaque(ast.unparse(e)[:30])
+
+    def call(self, e):
+        if any(isinstance(a, ast.Starred) for a in e.args) or any(k.arg is None for k in e.keywords):
+            raise _NotConcrete(ast.unparse(e))
+        f = e.func
+        args = [self.ev(a) for a in e.args]
+        kws = {k.arg: self.ev(k.value) for k in e.keywords}
+        concrete = lambda v: isinstance(v, (list, tuple, set, dict)) and id(v) not in self.escaped
+        if isinstance(f, ast.Name) and f.id not in self.env:
+            if f.id == "zip" and args and all(concrete(a) for a in args) and set(kws) <= {"strict"}:
+                return list(zip(*[list(a) for a in args]))
+            if f.id == "enumerate" and len(args) == 1 and concrete(args[0]) and not kws:
+                return list(enumerate(list(args[0])))
+            if f.id == "range" and args and all(isinstance(a, int) and not isinstance(a, bool) for a in args) and not kws:
+                return list(range(*args))
+            if f.id in ("set", "list", "tuple", "dict", "OrderedDict") and not kws:
+                if not args:
+                    return {"set": set, "list": list, "tuple": tuple}.get(f.id, dict)()
+                if len(args) == 1 and concrete(args[0]) and f.id in ("set", "list", "tuple"):
+                    try:
+                        return {"set": set, "list": list, "tuple": tuple}[f.id](args[0])
+                    except TypeError:
+                        raise _NotConcrete(ast.unparse(e))
+            if f.id == "len" and len(args) == 1 and concrete(args[0]):
+                return len(args[0])
+        if isinstance(f, ast.Attribute):
+            recv = self.ev(f.value)
+            if isinstance(recv, (list, set, dict)):
+                if id(recv) in self.escaped or f.attr not in self.MODELLED or kws:
+                    self.escaped.add(id(recv))
+                    return _Opaque(ast.unparse(e)[:30])
+                try:
+                    if f.attr in ("keys", "values", "items") and isinstance(recv, dict) and not args:
+                        return list(getattr(recv, f.attr)())
+                    if f.attr in ("add", "append", "extend", "update", "get", "copy"):
+                        if f.attr in ("add", "get") and any(isinstance(a, _Opaque) for a in args[:1]):
+                            raise TypeError
+                        if f.attr in ("extend", "update") and not all(concrete(a) for a in args):
+                            raise TypeError
+                        return getattr(recv, f.attr)(*args)
+                except Exception:
+                    self.escaped.add(id(recv))
+                    return _Opaque(ast.unparse(e)[:30])
+        # any other call: the result is not known; containers handed over may be changed by it
+        for v in args + list(kws.values()):
+            if isinstance(v, (list, set, dict)):
+                self.escaped.add(id(v))
+        return _Opaque(ast.unparse(e)[:30])
+
+
+def _storage_dtype(ck, repo):
+    """R6: the column a transition value is written into keeps that value.  `add_sample(**sample)` of the replay buffers allocates the
+    storage of every column at the first insertion, its first axis the capacity and the remaining axes the shape of the first value; the
+    element type of that storage has to be the column's declared type.  An allocation whose `dtype` is the type of the first value
+    itself (`np.asarray(v).dtype`, `np.empty_like(v)`), for every column alike, makes the first value decide how all later ones are
+    kept: gymnasium only promises a reward that supports float(), an integer-typed first reward followed by fractional rewards is
+    truncated by the element assignment - a dataflow fact (value -> dtype of the storage), reported.  A type that is taken from the value only
+    under a condition on the column / value, or computed from both, is not read (undecided)."""
+    for cq in _COLUMN_STORES:
+        m = repo.method(cq, "add_sample") if repo.has(cq) else None
+        if m is None:
+            continue
+        fn = m[1]
+        mi = repo.cls(m[0])._module
+        site = f"{cq}.add_sample"
+        packs = {fn.args.kwarg.arg} if fn.args.kwarg else set()
+        roles = {a.arg for a in fn.args.args[1:] + fn.args.kwonlyargs if a.arg in ROLE_OF}
+        if not packs and not roles:
+            continue
+        parent = {}
+        for p in ast.walk(fn):
+            for c in ast.iter_child_nodes(p):
+                parent[id(c)] = p
+        # names bound by iterating over the sample (keys / values / items), and plain copies of values
+        iter_names, values = set(), set(roles)
+
+        def over_sample(it):
+            """'items' / 'values' / 'keys' when the iterable enumerates the sample mapping"""
+            if isinstance(it, ast.Name) and it.id in packs:
+                return "keys"
+            if isinstance(it, ast.Call) and isinstance(it.func, ast.Attribute) and isinstance(it.func.value, ast.Name) and it.func.value.id in packs and it.func.attr in ("items", "values", "keys") and not it.args:
+                return it.func.attr
+            return None
+        for x in ast.walk(fn):
+            if isinstance(x, (ast.For, ast.comprehension)):
+                iter_names |= _names_in(x.target)
+                kind = over_sample(x.iter)
+                if kind == "items" and isinstance(x.target, (ast.Tuple, ast.List)) and len(x.target.elts) == 2 and isinstance(x.target.elts[1], ast.Name):
+                    values.add(x.target.elts[1].id)
+                elif kind == "values" and isinstance(x.target, ast.Name):
+                    values.add(x.target.id)
+
+        def same_array(e):
+            """through conversions that keep the element type (`np.asarray(x)` and the like, without further arguments)"""
+            while isinstance(e, ast.Call) and dotted(e.func) in _SAME_ARRAY and len(e.args) == 1 and not e.keywords and not isinstance(e.args[0], ast.Starred):
+                e = e.args[0]
+            return e
+
+        def is_value(e, depth=0, strict=False):
+            """the expression is a sample value (through value-preserving wrappers and single plain copies); strict: with the element type it arrived
+            with (only conversions without a target type, a value name is rebound to such conversions of itself only)"""
+            e = same_array(e) if strict else strip_wrappers(e)
+            if isinstance(e, ast.Name):
+                if e.id in values:
+                    if strict:
+                        for s_ in ast.walk(fn):
+                            tg = s_.targets if isinstance(s_, ast.Assign) else [s_.target] if isinstance(s_, (ast.AugAssign, ast.AnnAssign, ast.NamedExpr)) else []
+                            if any(e.id in _names_in(t) for t in tg):
+                                v_ = same_array(s_.value) if isinstance(s_, ast.Assign) and len(tg) == 1 and isinstance(tg[0], ast.Name) else None
+                                if not (isinstance(v_, ast.Name) and v_.id == e.id):
+                                    return False
+                    return True
+                if strict:
+                    ds = [s for s in ast.walk(fn) if isinstance(s, ast.Assign) and any(isinstance(t, ast.Name) and t.id == e.id for t in s.targets)]
+                    others = sum(1 for y in ast.walk(fn) if isinstance(y, ast.Name) and y.id == e.id and not isinstance(y.ctx, ast.Load))
+                    return depth < 4 and len(ds) == 1 and others == 1 and len(ds[0].targets) == 1 and is_value(ds[0].value, depth + 1, True)
+                ds = [s for s in ast.walk(fn) if isinstance(s, ast.Assign) and any(isinstance(t, ast.Name) and t.id == e.id for t in s.targets)]
+                others = sum(1 for y in ast.walk(fn) if isinstance(y, ast.Name) and y.id == e.id and not isinstance(y.ctx, ast.Load))
+                return depth < 4 and len(ds) == 1 and others == 1 and is_value(ds[0].value, depth + 1)
+            if isinstance(e, ast.Subscript) and isinstance(e.value, ast.Name) and e.value.id in packs:
+                return True
+            return False
+
+        def touches_sample(e):
+            return any((isinstance(y, ast.Name) and (y.id in packs or y.id in iter_names or is_value(y))) for y in ast.walk(e))
+
+        self_name = fn.args.args[0].arg if fn.args.args else "self"
+        key_names = set()
+        for x in ast.walk(fn):
+            if isinstance(x, (ast.For, ast.comprehension)):
+                kind = over_sample(x.iter)
+                if kind == "items" and isinstance(x.target, (ast.Tuple, ast.List)) and len(x.target.elts) == 2 and isinstance(x.target.elts[0], ast.Name):
+                    key_names.add(x.target.elts[0].id)
+                elif kind == "keys" and isinstance(x.target, ast.Name):
+                    key_names.add(x.target.id)
+        # the state a default-constructed buffer has when the first sample arrives, and the attributes only the constructor sets
+        ctor, changed_elsewhere = None, set()
+        try:
+            init = repo.method(cq, "__init__")
+            if init is not None:
+                ctor = _CtorEval(init[1])
+                ctor.run(init[1].body)
+        except (_NotConcrete, RecursionError):
+            ctor = None
+        try:
+            cnode = repo.lookup(cq)[1]
+        except Exception:
+            cnode, ctor = None, None
+        for meth in (cnode.body if cnode is not None else []):
+            if isinstance(meth, ast.FunctionDef) and meth.name != "__init__":
+                sn = meth.args.args[0].arg if meth.args.args else None
+                for y in ast.walk(meth):
+                    if isinstance(y, ast.Attribute) and isinstance(y.value, ast.Name) and y.value.id == sn:
+                        if not isinstance(y.ctx, ast.Load):
+                            changed_elsewhere.add(y.attr)
+                for y in ast.walk(meth):
+                    if isinstance(y, ast.Call) and isinstance(y.func, ast.Attribute):
+                        r = y.func.value
+                        if isinstance(r, ast.Attribute) and isinstance(r.value, ast.Name) and r.value.id == sn and y.func.attr not in ("keys", "values", "items", "get", "copy"):
+                            changed_elsewhere.add(r.attr)
+                    if isinstance(y, ast.Subscript) and not isinstance(y.ctx, ast.Load) and isinstance(y.value, ast.Attribute) and isinstance(y.value.value, ast.Name) and y.value.value.id == sn:
+                        changed_elsewhere.add(y.value.attr)
+
+        def reward_world(test):
+            """truth of a test on the column key for the reward column of a default-constructed buffer; None when it is not concrete"""
+            if ctor is None or not key_names:
+                return None
+            read = {y.attr for y in ast.walk(test) if isinstance(y, ast.Attribute) and isinstance(y.value, ast.Name) and y.value.id == self_name}
+            if (read & changed_elsewhere) or touches_value(test):
+                return None
+            w = _CtorEval(fn, {k: "reward" for k in key_names})
+            w.attrs, w.escaped = ctor.attrs, ctor.escaped
+            try:
+                return w.truth(test)
+            except (_NotConcrete, RecursionError):
+                return None
+
+        def touches_value(e):
+            return any(isinstance(y, ast.Name) and (y.id in packs or is_value(y)) for y in ast.walk(e))
+
+        def kinds(e, depth=0):
+            """{"declared", "sample", "sample?" (under a condition on the column / value), "mixed"} the dtype expression can be"""
+            if isinstance(e, ast.IfExp):
+                cond = touches_sample(e.test)
+                w = reward_world(e.test) if cond else None
+                if w is not None:
+                    worlds.append(f"`{short(e.test, 40)}` is {w} for the reward column of a default-constructed buffer")
+                    return kinds(e.body if w else e.orelse, depth)
+                out = kinds(e.body, depth) | kinds(e.orelse, depth)
+                return {("sample?" if k == "sample" and cond else k) for k in out}
+            if isinstance(e, ast.Call) and dotted(e.func).rsplit(".", 1)[-1] == "dtype" and len(e.args) == 1 and not e.keywords:
+                return kinds(e.args[0], depth)          # np.dtype(t)
+            if isinstance(e, ast.Attribute) and e.attr == "dtype" and is_value(e.value, strict=True):
+                return {"sample"}
+            if isinstance(e, ast.Name) and depth < 4:
+                ds = [s for s in ast.walk(fn) if isinstance(s, ast.Assign) and any(isinstance(t, ast.Name) and t.id == e.id for t in s.targets)]
+                others = sum(1 for y in ast.walk(fn) if isinstance(y, ast.Name) and y.id == e.id and not isinstance(y.ctx, ast.Load))
+                if ds and others == len(ds) and all(len(s.targets) == 1 for s in ds):
+                    live = [(s, g) for s, g in ((s, guarded(s)) for s in ds) if g != "dead"]      # definitions the reward column can take
+                    out = set()
+                    for s, g in live:
+                        k2 = kinds(s.value, depth + 1)
+                        out |= {("sample?" if k == "sample" and (len(live) > 1 or g) else k) for k in k2}
+                    return out or {"mixed"}
+            return {"mixed"} if touches_value(e) else {"declared"}          # the column key may be read: the declared type is per column
+
+        def guarded(node):
+            """an enclosing test (if / while / conditional expression / comprehension condition) reads the column key or the value"""
+            c = node
+            while id(c) in parent:
+                p = parent[id(c)]
+                if isinstance(p, ast.If) and c is not p.test and touches_sample(p.test):
+                    w = reward_world(p.test)
+                    if w is None:
+                        return True
+                    if w != any(c is x for x in p.body):
+                        return "dead"         # not the branch the reward column takes
+                    worlds.append(f"`{short(p.test, 40)}` is {w} for the reward column of a default-constructed buffer")
+                elif isinstance(p, (ast.While, ast.IfExp)) and c is not p.test and touches_sample(p.test):
+                    return True
+                if isinstance(p, ast.comprehension) and any(touches_sample(t) for t in p.ifs):
+                    return True
+                c = p
+            return False
+
+        n = 0
+        worlds = []
+        for st in ast.walk(fn):
+            if not (isinstance(st, ast.Assign) and isinstance(st.value, ast.Call) and isinstance(st.value.func, (ast.Name, ast.Attribute))):
+                continue
+            del worlds[:]
+            tgt = st.targets[0]
+            if not (len(st.targets) == 1 and isinstance(tgt, ast.Subscript) and dotted(tgt.value).startswith("self.")):
+                continue
+            call = st.value
+            try:
+                q = repo.resolve_expr(mi, call.func) or ""
+            except Exception:
+                q = ""
+            name = q.rsplit(".", 1)[-1]
+            if not q.startswith(("numpy.", "jax.numpy.")) or name not in _ALLOCATORS:
+                continue
+            if any(isinstance(a, ast.Starred) for a in call.args) or any(kw.arg is None for kw in call.keywords) or not call.args:
+                continue
+            if not touches_sample(call.args[0]):
+                continue            # not shaped after a stored value: no column of the transition
+            n += 1
+            dt = next((kw.value for kw in call.keywords if kw.arg == "dtype"), None)
+            if dt is None and len(call.args) > _ALLOCATORS[name]:
+                dt = call.args[_ALLOCATORS[name]]
+            if dt is None:
+                ks = {"sample"} if name.endswith("_like") and is_value(call.args[0], strict=True) else ({"mixed"} if name.endswith("_like") else {"declared"})
+            else:
+                ks = kinds(dt)
+            g = guarded(st)
+            if g == "dead":
+                continue
+            if "sample" in ks and g:
+                ks = (ks - {"sample"}) | {"sample?"}
+            where = loc(mi, st)
+            if "sample" in ks:
+                ck.ob("R6-storage-dtype", site, "column-type-declared", False, f"`{short(st, 70)}`",
+                      f"the element type of the column storage `{short(tgt, 30)}` is the type of the first value stored (`{short(dt, 40) if dt is not None else name}`)" + (f" ({'; '.join(worlds[:2])})" if worlds else ", for every column") + ": a first reward of integer "
+                      f"type (gymnasium: any SupportsFloat) makes an integer column, later fractional rewards are truncated by the element assignment - the stored reward is not the one the environment returned", where)
+            elif ks - {"declared"}:
+                ck.incomplete.append(f"{site}: whether the element type `{short(dt, 40) if dt is not None else name}` of the column storage `{short(tgt, 30)}` keeps every value stored later is not read "
+                                     f"(taken from the stored value under a condition / computed) (unrecognised form)")
+            else:
+                ck.ob("R6-storage-dtype", site, "column-type-declared", True, f"`{short(st, 70)}`", "", where)
+        ck.count("column-allocations", n)
+
+
+def _read_step_carrier(repo, qual, cfgs):
+    """The step result held as a whole - `r = env.step(a)`, `r = tuple(env.step(a))` or a five-field record of the package built from it
+    (`r = Rec(*env.step(a))`, `r = Rec._make(env.step(a))`; fields in constructor order are the protocol positions) - and read by
+    position afterwards: `r[k]`, `r.<field k>`, `x, y = r[i:j]`, `a, b, c, d, e = r`, also through plain aliases `r2 = r`.  The holder
+    and each alias are bound exactly once in the function and every occurrence of them is one of these reads; then
+    the function means the same with one variable per position (`r__p0, .., r__p4 = env.step(a)`, an alias copying all five, a read of
+    position k being the k-th variable), and the loop is analysed on a private copy written that way (roles stay tuple positions of
+    the step result; the parsed tree is not touched).  Copies of positions made by the statements directly after the step statement are
+    folded into the unpacking (`x, y = r[:2]; z, u, v = r[2:]` is `x, y, z, u, v = env.step(a)`).  Any other use leaves the function as it is."""
+    from ..expand import clone
+    from ..nf import NF
+    fn = repo.func(qual)
+    mi = fn._module
+    argnames = {a.arg for a in ast.walk(fn) if isinstance(a, ast.arg)}
+    params = set(positional_params(fn)) | {a.arg for a in fn.args.kwonlyargs}
+
+    def is_step(v):
+        return isinstance(v, ast.Call) and isinstance(v.func, ast.Attribute) and v.func.attr == "step" and isinstance(v.func.value, ast.Name) and v.func.value.id in params
+
+    def carried(v):
+        """(step call, field names or None) when ``v`` is the whole step result / a five-field record constructed from it"""
+        if is_step(v):
+            return v, None
+        if not (isinstance(v, ast.Call) and len(v.args) == 1 and not v.keywords):
+            return None
+        a, ctor, call = v.args[0], None, None
+        if isinstance(a, ast.Starred) and is_step(a.value):
+            ctor, call = v.func, a.value
+        elif isinstance(v.func, ast.Attribute) and v.func.attr == "_make" and is_step(a):
+            ctor, call = v.func.value, a
+        elif isinstance(v.func, ast.Name) and v.func.id == "tuple" and "tuple" not in stores and is_step(a):
+            return a, None
+        if not isinstance(ctor, (ast.Name, ast.Attribute)):
+            return None
+        try:
+            q = repo.resolve_expr(mi, ctor)
+            node = repo.lookup(q)[1] if q and repo.has(q) else None
+            fields = NF._record_fields(node) if node is not None else None
+        except Exception:
+            return None
+        if fields and len(fields) == 5 and len(set(fields)) == 5:
+            return call, list(fields)
+        return None
+
+    if sum(1 for x in ast.walk(fn) if is_step(x)) != 1:
+        return
+    stores = {}
+    for x in ast.walk(fn):
+        if isinstance(x, ast.Name) and not isinstance(x.ctx, ast.Load):
+            stores[x.id] = stores.get(x.id, 0) + 1
+        elif isinstance(x, (ast.FunctionDef, ast.AsyncFunctionDef, ast.ClassDef)) and x is not fn:
+            stores[x.name] = stores.get(x.name, 0) + 2
+        elif isinstance(x, (ast.Global, ast.Nonlocal)):
+            for nm in x.names:
+                stores[nm] = stores.get(nm, 0) + 2
+        elif isinstance(x, ast.alias):
+            nm = (x.asname or x.name).split(".")[0]
+            stores[nm] = stores.get(nm, 0) + 2
+        elif isinstance(x, ast.ExceptHandler) and x.name:
+            stores[x.name] = stores.get(x.name, 0) + 2
+
+    def once(nm):
+        return stores.get(nm) == 1 and nm not in argnames
+    holders = [st for st in ast.walk(fn) if isinstance(st, ast.Assign) and len(st.targets) == 1 and isinstance(st.targets[0], ast.Name) and carried(st.value)]
+    if len(holders) != 1 or not once(holders[0].targets[0].id):
+        return
+    fields = {holders[0].targets[0].id: carried(holders[0].value)[1]}
+    grew = True
+    while grew:
+        grew = False
+        for st in ast.walk(fn):
+            if isinstance(st, ast.Assign) and len(st.targets) == 1 and isinstance(st.targets[0], ast.Name) and isinstance(st.value, ast.Name) and st.value.id in fields \
+                    and st.targets[0].id not in fields and once(st.targets[0].id):
+                fields[st.targets[0].id] = fields[st.value.id]
+                grew = True
+    taken = {x.id for x in ast.walk(fn) if isinstance(x, ast.Name)} | argnames
+    if any(f"{c}__p{k}" in taken for c in fields for k in range(5)):
+        return
+
+    def pos_name(c, k, ctx, at):
+        return ast.copy_location(ast.Name(id=f"{c}__p{k}", ctx=ctx), at)
+
+    def all_five(c, ctx, at):
+        return ast.copy_location(ast.Tuple(elts=[pos_name(c, k, ctx, at) for k in range(5)], ctx=ctx), at)
+
+    def const_int(e):
+        if isinstance(e, ast.Constant) and isinstance(e.value, int) and not isinstance(e.value, bool):
+            return e.value
+        if isinstance(e, ast.UnaryOp) and isinstance(e.op, ast.USub) and isinstance(e.operand, ast.Constant) and isinstance(e.operand.value, int) and not isinstance(e.operand.value, bool):
+            return -e.operand.value
+        return None
+
+    class Rewrite(ast.NodeTransformer):
+        def visit_Assign(self, st):
+            t = st.targets[0] if len(st.targets) == 1 else None
+            if isinstance(t, ast.Name) and t.id in fields:
+                got = carried(st.value)
+                if got is not None:
+                    call = self.generic_visit(got[0])
+                    return ast.copy_location(ast.Assign(targets=[all_five(t.id, ast.Store(), t)], value=call), st)
+                if isinstance(st.value, ast.Name) and st.value.id in fields:
+                    return ast.copy_location(ast.Assign(targets=[all_five(t.id, ast.Store(), t)], value=all_five(st.value.id, ast.Load(), st.value)), st)
+            if isinstance(t, (ast.Tuple, ast.List)) and len(t.elts) == 5 and not any(isinstance(x, ast.Starred) for x in t.elts) and isinstance(st.value, ast.Name) and st.value.id in fields:
+                st.value = all_five(st.value.id, ast.Load(), st.value)
+            return self.generic_visit(st)
+
+        def visit_Attribute(self, e):
+            if isinstance(e.ctx, ast.Load) and isinstance(e.value, ast.Name) and fields.get(e.value.id) and e.attr in fields[e.value.id]:
+                return pos_name(e.value.id, fields[e.value.id].index(e.attr), ast.Load(), e)
+            return self.generic_visit(e)
+
+        def visit_Subscript(self, e):
+            if isinstance(e.ctx, ast.Load) and isinstance(e.value, ast.Name) and e.value.id in fields:
+                c, s = e.value.id, e.slice
+                k = const_int(s)
+                if k is not None and -5 <= k < 5:
+                    return pos_name(c, k % 5, ast.Load(), e)
+                if isinstance(s, ast.Slice) and s.step is None:
+                    lo = 0 if s.lower is None or (isinstance(s.lower, ast.Constant) and s.lower.value is None) else const_int(s.lower)
+                    hi = 5 if s.upper is None or (isinstance(s.upper, ast.Constant) and s.upper.value is None) else const_int(s.upper)
+                    if lo is not None and hi is not None and -5 <= lo <= 5 and -5 <= hi <= 5:
+                        lo, hi = (lo + 5 if lo < 0 else lo), (hi + 5 if hi < 0 else hi)
+                        return ast.copy_location(ast.Tuple(elts=[pos_name(c, j, ast.Load(), e) for j in range(lo, hi)], ctx=ast.Load()), e)
+            return self.generic_visit(e)
+
+    new = Rewrite().visit(clone(fn))
+    if any(isinstance(x, ast.Name) and x.id in fields for x in ast.walk(new)):
+        return          # the carrier is used as a whole somewhere (passed on, returned, tested ...): not read
+    # fold the copies made directly after the step statement into the unpacking
+    loads = {}
+    for x in ast.walk(new):
+        if isinstance(x, ast.Name) and isinstance(x.ctx, ast.Load):
+            loads[x.id] = loads.get(x.id, 0) + 1
+    for parent in ast.walk(new):
+        for fld in ("body", "orelse", "finalbody"):
+            block = getattr(parent, fld, None)
+            if not isinstance(block, list):
+                continue
+            for i, a in enumerate(block):
+                if not (isinstance(a, ast.Assign) and is_step(a.value) and isinstance(a.targets[0], ast.Tuple)):
+                    continue
+                tgt = a.targets[0]
+                while i + 1 < len(block):
+                    b = block[i + 1]
+                    if not (isinstance(b, ast.Assign) and len(b.targets) == 1):
+                        break
+                    t, v = b.targets[0], b.value
+                    if isinstance(t, ast.Name) and isinstance(v, ast.Name):
+                        pairs = [(t, v)]
+                    elif isinstance(t, (ast.Tuple, ast.List)) and isinstance(v, ast.Tuple) and len(t.elts) == len(v.elts):
+                        pairs = list(zip(t.elts, v.elts))
+                    else:
+                        break
+                    cur = [x.id for x in tgt.elts]
+                    fresh_now = {x.id for x in tgt.elts if any(x.id == f"{c}__p{k}" for c in fields for k in range(5))}
+                    if not pairs or not all(isinstance(x, ast.Name) and isinstance(y, ast.Name) and y.id in fresh_now and loads.get(y.id) == 1 and x.id not in cur for x, y in pairs) \
+                            or len({x.id for x, _ in pairs}) != len(pairs) or len({y.id for _, y in pairs}) != len(pairs):
+                        break
+                    for x, y in pairs:
+                        tgt.elts[cur.index(y.id)] = ast.copy_location(ast.Name(id=x.id, ctx=ast.Store()), x)
+                    del block[i + 1]
+    ast.fix_missing_locations(new)
+    new._module = fn._module
+    new._qual = getattr(fn, "_qual", qual)
+    new._parent = getattr(fn, "_parent", None)
+    for parent in ast.walk(new):
+        for child in ast.iter_child_nodes(parent):
+            child._parent = parent
+    cfgs[qual] = CFG(new)
+
+
 def run(ck, repo: Repo, tier: str):
     cfgs = {}
     loops = []
     for q in C01_LOOPS:
         _read_step_projection(repo, q, cfgs)
+        if q not in cfgs:
+            _read_step_carrier(repo, q, cfgs)
         loops.append(find_env_loop(repo, q, cfgs))
     ck.floor("env-loops", len(loops), 19)
     n_sites = 0
@@ -1735,6 +2354,7 @@ def run(ck, repo: Repo, tier: str):
         ck.guard(one_loop, L)
     ck.guard(_episode_record, ck, repo)
     ck.guard(_readout, ck, repo)
+    ck.guard(_storage_dtype, ck, repo)
     n_sites = n_sites_box[0]
     ck.count("store-sites", n_sites)
     ck.floor("store-sites", n_sites, 24)
@@ -1849,6 +2469,16 @@ _DQN_STEP = "        next_obs, reward, terminated, truncated, info = env.step(in
 _DQN_STORE = "        replay_buffer.add_sample(\n            observation=obs,\n            action=action,\n            reward=reward,\n            next_observation=next_obs,\n            termination=terminated,\n        )\n"
 _RET = "        return observations, actions, next_observations, returns, gamma_discount\n"
 _ADD = "        dataset.add_sample(observation, action, next_observation, reward)\n"
+_TD3_STEP = "        next_obs, reward, termination, truncated, info = env.step(action)\n"
+_TD3_REC = ("def train_td3(\n", "from typing import NamedTuple\n\n\nclass StepOutcome(NamedTuple):\n    successor: np.ndarray\n    payoff: float\n    ended: bool\n    cut_off: bool\n    extras: dict\n\n\ndef train_td3(\n")
+_DQN_STORE_OUT = "        replay_buffer.add_sample(\n            observation=obs,\n            action=action,\n            reward=out[1],\n            next_observation=out[0],\n            termination=out[%d],\n        )\n"
+_RB = "rl_blox/blox/replay_buffer.py"
+_RB_ALLOC = "                self.buffer[k] = np.empty(\n                    (self.buffer_size,) + np.asarray(v).shape,\n                    dtype=self.buffer[k].dtype,\n                )\n"
+_RB_INIT = "        self.buffer = OrderedDict()\n        for k, t in zip(keys, dtypes, strict=True):\n            self.buffer[k] = np.empty(0, dtype=t)\n"
+_RB_ADAPT = ("        self.adaptive = []\n        self.buffer = OrderedDict()\n        for k, t in zip(keys, dtypes, strict=True):\n            self.buffer[k] = np.empty(0, dtype=t)\n"
+             "            if %s:\n                self.adaptive.append(k)\n")
+_RB_ALLOC_ADAPT = ("                if k in self.adaptive:\n                    kind = np.asarray(v).dtype\n                else:\n                    kind = self.buffer[k].dtype\n"
+                   "                self.buffer[k] = np.empty((self.buffer_size,) + np.asarray(v).shape, dtype=kind)\n")
 MUTANTS = [
     {"id": "c01-td3-device-copy-not-refreshed-at-reset", "file": _TD3, "rule": "R4", "edits": [('    obs, _ = env.reset(seed=seed)\n', '    obs, _ = env.reset(seed=seed)\n    obs_dev = jnp.asarray(obs)\n'), ('_sample_actions(policy, jnp.asarray(obs), action_key)', '_sample_actions(policy, obs_dev, action_key)'), ('        next_obs, reward, termination, truncated, info = env.step(action)\n', '        next_obs, reward, termination, truncated, info = env.step(action)\n        obs_dev = jnp.asarray(next_obs)\n')]},
     {"id": "c01-td3-carry-before-store", "file": _TD3, "rule": "R2",
@@ -1898,6 +2528,21 @@ MUTANTS = [
         ("class EpisodeDataset:\n", "class PGBatch(NamedTuple):\n    observations: jnp.ndarray\n    actions: jnp.ndarray\n    next_observations: jnp.ndarray\n    returns: jnp.ndarray\n    gamma_discount: jnp.ndarray\n\n\nclass EpisodeDataset:\n"),
         (_RET, "        return PGBatch(observations, actions, observations, returns, gamma_discount)\n")]},
     {"id": "c01-reinforce-star-pack-swapped", "file": _RF, "rule": "R1", "find": _ADD, "replace": "        sample = (next_observation, action, observation, reward)\n        dataset.add_sample(*sample)\n"},
+    # the step result held as a whole (tuple / five-field record, aliases) and read by position
+    {"id": "c01-dqn-step-two-slices-flags-swapped", "file": "rl_blox/algorithm/dqn.py", "rule": "R1", "find": _DQN_STEP,
+     "replace": "        out = env.step(int(action))\n        next_obs, reward = out[:2]\n        truncated, terminated, info = out[2:]\n"},
+    {"id": "c01-td3-step-record-flag-fields-swapped", "file": _TD3, "rule": "R1", "edits": [_TD3_REC,
+        (_TD3_STEP, "        outcome = StepOutcome(*env.step(action))\n        last = outcome\n        next_obs, reward = last.successor, outcome.payoff\n        termination = outcome.cut_off\n        truncated = last[2]\n")]},
+    {"id": "c01-dqn-step-result-indexed-in-store-truncation-as-termination", "file": "rl_blox/algorithm/dqn.py", "rule": "R1", "edits": [
+        (_DQN_STEP, "        out = env.step(int(action))\n        next_obs, reward, terminated, truncated = out[0], out[1], out[2], out[-2]\n"), (_DQN_STORE, _DQN_STORE_OUT % 3)]},
+    {"id": "c01-td3-step-record-successor-is-payoff", "file": _TD3, "rule": "R1", "edits": [_TD3_REC,
+        (_TD3_STEP, "        outcome = StepOutcome._make(env.step(action))\n        reward, next_obs, termination, truncated, info = outcome\n")]},
+    # R6: element type of the column storage taken from the first value stored
+    {"id": "c01-replay-buffer-column-type-of-first-value", "file": _RB, "rule": "R6", "nth": 0, "find": _RB_ALLOC,
+     "replace": "                first = np.asarray(v)\n                self.buffer[k] = np.empty((self.buffer_size,) + first.shape, dtype=first.dtype)\n"},
+    {"id": "c01-subtrajectory-buffer-storage-like-first-value", "file": _RB, "rule": "R6", "nth": 1, "find": _RB_ALLOC,
+     "replace": "                self.buffer[k] = np.zeros_like(np.asarray(v), shape=(self.buffer_size,) + np.shape(v))\n"},
+    {"id": "c01-replay-buffer-float-columns-typed-by-first-value", "file": _RB, "rule": "R6", "nth": 0, "edits": [(_RB_INIT, _RB_ADAPT % "t is float"), (_RB_ALLOC, _RB_ALLOC_ADAPT)]},
 ]
 BENIGN = [
     {"id": "c01-b-td3-device-copy-refreshed-at-reset", "file": _TD3, "edits": [('    obs, _ = env.reset(seed=seed)\n', '    obs, _ = env.reset(seed=seed)\n    obs_dev = jnp.asarray(obs)\n'), ('_sample_actions(policy, jnp.asarray(obs), action_key)', '_sample_actions(policy, obs_dev, action_key)'), ('        next_obs, reward, termination, truncated, info = env.step(action)\n', '        next_obs, reward, termination, truncated, info = env.step(action)\n        obs_dev = jnp.asarray(next_obs)\n'), ('            obs, _ = env.reset()\n', '            obs, _ = env.reset()\n            obs_dev = jnp.asarray(obs)\n')]},
@@ -1957,4 +2602,28 @@ BENIGN = [
         ("class EpisodeDataset:\n", "class PGBatch(NamedTuple):\n    observations: jnp.ndarray\n    actions: jnp.ndarray\n    next_observations: jnp.ndarray\n    returns: jnp.ndarray\n    gamma_discount: jnp.ndarray\n\n\nclass EpisodeDataset:\n"),
         (_RET, "        return PGBatch(observations, actions, next_observations, returns, gamma_discount)\n")]},
     {"id": "c01-b-reinforce-star-pack", "file": _RF, "find": _ADD, "replace": "        sample = (observation, action, next_observation, reward)\n        dataset.add_sample(*sample)\n"},
+    # the step result held as a whole and read by position
+    {"id": "c01-b-dqn-step-two-slices", "file": "rl_blox/algorithm/dqn.py", "find": _DQN_STEP,
+     "replace": "        out = env.step(int(action))\n        next_obs, reward = out[:2]\n        terminated, truncated, info = out[2:]\n"},
+    {"id": "c01-b-td3-step-record-fields-and-alias", "file": _TD3, "edits": [_TD3_REC,
+        (_TD3_STEP, "        outcome = StepOutcome(*env.step(action))\n        last = outcome\n        next_obs, reward = last.successor, outcome.payoff\n        termination = outcome.ended\n        truncated = last[3]\n")]},
+    {"id": "c01-b-dqn-step-result-indexed-in-store", "file": "rl_blox/algorithm/dqn.py", "edits": [
+        (_DQN_STEP, "        out = env.step(int(action))\n        next_obs, reward, terminated, truncated = out[0], out[1], out[2], out[-2]\n"), (_DQN_STORE, _DQN_STORE_OUT % 2)]},
+    {"id": "c01-b-td3-step-record-make-unpacked", "file": _TD3, "edits": [_TD3_REC,
+        (_TD3_STEP, "        outcome = StepOutcome._make(env.step(action))\n        next_obs, reward, termination, truncated, info = outcome\n")]},
+    {"id": "c01-b-dqn-step-tuple-late-reads", "file": "rl_blox/algorithm/dqn.py", "edits": [
+        (_DQN_STEP, "        out = tuple(env.step(int(action)))\n        reward = out[1]\n        next_obs = out[0]\n"),
+        ("        # housekeeping\n        if terminated or truncated:\n", "        # housekeeping\n        terminated, truncated = out[2:4]\n        if terminated or truncated:\n"),
+        ("            termination=terminated,\n        )\n\n        # sample minibatch", "            termination=out[-3],\n        )\n\n        # sample minibatch")]},
+    # R6: other spellings of the allocation with the declared column type
+    {"id": "c01-b-replay-buffer-declared-type-temporary", "file": _RB, "nth": 0, "find": _RB_ALLOC,
+     "replace": "                first = np.asarray(v)\n                declared = self.buffer[k].dtype\n                self.buffer[k] = np.zeros((self.buffer_size, *first.shape), declared)\n"},
+    {"id": "c01-b-replay-buffer-allocation-helper", "file": _RB, "edits": [
+        (_RB_ALLOC, "                self._allocate_column(k, np.shape(v))\n"),
+        ("    def add_sample(self, **sample):\n        \"\"\"Add transition sample to the replay buffer.\n", "    def _allocate_column(self, key, item_shape):\n        self.buffer[key] = np.empty((self.buffer_size,) + tuple(item_shape), dtype=np.dtype(self.buffer[key].dtype))\n\n    def add_sample(self, **sample):\n        \"\"\"Add transition sample to the replay buffer.\n")]},
+    {"id": "c01-b-subtrajectory-buffer-values-by-key", "file": _RB, "nth": 1,
+     "find": "            for k, v in sample.items():\n                assert k in self.buffer, f\"{k} not in {self.buffer.keys()}\"\n" + _RB_ALLOC,
+     "replace": "            for k in sample:\n                assert k in self.buffer, f\"{k} not in {self.buffer.keys()}\"\n                self.buffer[k] = np.empty((self.buffer_size,) + np.asarray(sample[k]).shape, dtype=self.buffer[k].dtype)\n"},
+    {"id": "c01-b-replay-buffer-observation-columns-typed-by-first-value", "file": _RB, "nth": 0, "edits": [
+        (_RB_INIT, _RB_ADAPT % "t is float and k in (\"observation\", \"next_observation\")"), (_RB_ALLOC, _RB_ALLOC_ADAPT)]},
 ]
